@@ -74,15 +74,16 @@ PROPS.update({
     },
     "C04": {
         "title": "Header, question and EDNS summaries equal what the bytes say",
-        "units": ["U1", "U3"],
+        "units": ["U1", "U2", "U3"],
         "cone": {"U1": [r"DNSSector::(parse|parse_opt|parse_rr|new|opt_rr_|be16_load|u8_load)"],
+                 "U2": [r"ParsedPacket::(question_raw0|question_raw|question|qtype_qclass|packet)$", r"Compress::(copy_uncompressed_name|raw_name_to_str|raw_name_len)$", r"spec/(reader|locality|names)\.rs"],
                  "U3": [r"ParsedPacket::(packet|tid|flags|dnssec|is_response|rcode|opcode|max_payload)$", r"DNSSector::(is_response|qdcount|ancount|nscount|arcount)$"]},
         "witness": ("c04", 10000),
         "kani": {"harnesses": ["c04_header_getters"], "quick": True,
                  "arbitrate": {r"ParsedPacket::(flags|rcode|opcode|is_response|tid|dnssec)$": "c04_header_getters"}},
         "level": "proof", "design_ref": "DESIGN.md section 5 C04",
         "assumptions": U1_ASSUME,
-        "level_text": "parse's postcondition pins every EDNS summary field to the spec decode of the OPT record (or None/0/512); header getters are bit-exact (Verus bit_vector + complete Kani harness on the real crate)",
+        "level_text": "parse's postcondition pins every EDNS summary field to the spec decode of the OPT record (or None/0/512); header getters are bit-exact (Verus bit_vector + complete Kani harness on the real crate); the question getters return the spec expansion / its text / type / class and keep the cache coherent",
         "technique": "Verus postconditions on parse/parse_opt + bit_vector contracts of the getters + loop-free Kani harness",
     },
 })
